@@ -32,7 +32,7 @@ _ZSEP = ["\u2028", "\u2029", "\u00a0", "\u2003", "\u3000"]
 _XML = ["&", "<", ">", '"', "'", "&amp;", "]]>", "<!--"]
 _PUNCT = ["#", "!", "+", "(", ")", ",", ";", "=", "@", "~", "`", "$", "%", "^", "{", "}", "[", "]", "*", "?", "\\", ":", "|"]
 
-NAME_CLASSES = ["plain", "space", "xml", "punct", "uni", "zsep", "dash", "dot", "nearmiss", "long", "dotend", "dotunder", "appledouble"]
+NAME_CLASSES = ["plain", "space", "xml", "punct", "uni", "zsep", "dash", "dot", "nearmiss", "long", "dotend", "dotunder", "appledouble", "bracket"]
 FORBIDDEN = {".", "..", ASC, ".DS_Store", ""}
 
 
@@ -67,6 +67,8 @@ def gen_name(rng, cls=None, ext=True):
         n = stem[:2] + "._" + stem[2:]
     elif cls == "appledouble":
         n = "._" + stem
+    elif cls == "bracket":
+        n = stem[:3] + rng.choice([" [A001]", "[1]", " [a-c]", "[!x]", " {a,b}", "[[]"]) + stem[3:]
     else:
         raise ValueError(cls)
     if ext and cls not in ("nearmiss",) and rng.random() < 0.7:
@@ -77,6 +79,13 @@ def gen_name(rng, cls=None, ext=True):
     if n in FORBIDDEN:
         n = "n" + n
     return n
+
+
+def root_name(rng, prefix="R"):
+    """name for a history root folder: it ends up in manifest file names, so every name class matters"""
+    cls = rng.choice(["plain", "plain", "space", "xml", "punct", "uni", "zsep", "dot", "dotend", "dotunder", "bracket", "long"])
+    n = prefix + gen_name(rng, cls, ext=False)
+    return n[:120]
 
 
 def gen_bytes(rng, size=None):
@@ -107,7 +116,7 @@ def gen_tree(
     sizes=None,
 ):
     """returns {posix relpath: bytes | None(dir)}; parents are always present as explicit directory entries"""
-    classes = classes or ["plain", "plain", "space", "xml", "punct", "uni", "zsep", "dash", "dot", "nearmiss", "long", "dotend", "dotunder", "appledouble"]
+    classes = classes or ["plain", "plain", "space", "xml", "punct", "uni", "zsep", "dash", "dot", "nearmiss", "long", "dotend", "dotunder", "appledouble", "bracket"]
     dirs = [""]
     depth = {"": 0}
     tree = {}
